@@ -46,6 +46,21 @@ THEOREMS = {
     "C14_closure_selection_vector": "... and whose selection_vector is the characteristic vector of that index set",
     "C14_closure_attributes": "... and whose every attribute is the parent's values at that index list",
     "C14_closure_ref_sorted": "the reference index list is strictly increasing and in range",
+    # the model is the source: Generated/SrcViews.v is re-translated from /repo's data.py on every run
+    "C14_model_is_source_init": "translation of ScreenSubset.__init__ (run by ScreenSubset(...) and Plate(...)) = the model's constructor mk_view: dtype check, length check against screen.size, the two attributes",
+    "C14_model_is_source_size": "translation of ScreenBase.size on a Screen / on a ScreenSubset = the model's screen_size / view_size",
+    "C14_model_is_source_subset": "translation of the whole ScreenSubset.subset (checks, copy, np.where, scatter of the inner mask at the true positions, new ScreenSubset) = view_subset, all inputs",
+    "C14_model_is_source_combine": "translation of ScreenSubset.combine (`other.screen is not self.screen` = comparison of parent identity tags, `|`, Plate) = view_combine",
+    "C14_model_is_source_concat": "translation of ScreenSubset.concat (single argument returned itself, empty refused, loop with identity check and `|` accumulation from None, Plate) = view_concat",
+    "C14_model_is_source_invert": "translation of ScreenSubset.invert = view_invert",
+    "C14_model_is_source_screen_subset": "translation of Screen.subset = screen_subset",
+    "C14_model_is_source_subset_observed": "translation of Screen.subset_observed (None iff np.any(mask) is false, else self.subset(mask)) = subset_observed",
+    "C14_model_is_source_subset_unobserved": "translation of Screen.subset_unobserved (None iff np.any(~mask) is false) = subset_unobserved",
+    "C14_model_is_source_get_plate": "translation of Screen.get_plate (Plate(self, plate_ids == plate_id)) = get_plate",
+    "C14_model_is_source_plates": "translations of ScreenBase.unique_plate_ids and Screen.plates ([self.get_plate(x) for x in unique ids], left to right) = plates",
+    "C14_model_is_source_to_screen": "translation of ScreenSubset.to_screen: Screen(...) with exactly the seven keywords it passes (six parent arrays at the selected rows, control name; no mappings) = to_screen",
+    "C14_model_is_source_attributes": "translations of the twelve attribute properties of ScreenSubset (parent.attr[selection_vector], or the parent's value for control name / mappings) = view_pids, view_sids, view_tids, ...",
+    "C14_model_is_source_single_treatment_effects": "translation of ScreenSubset.single_treatment_effects = None when the parent's property is None, else its rows at the selection",
 }
 ASSUMPTIONS = [
     "np.unique(axis=0, return_index=True) returns, for each distinct row, the index of its first occurrence (numpy uses a stable sort "
@@ -55,11 +70,33 @@ ASSUMPTIONS = [
     "doses cross as order keys (common.float_key), observations as IEEE-754 bit patterns, names as code-point lists",
     "in-place mutation is not expressible in the functional model; it is checked at run time by pred (snapshots of the argument views' "
     "selection vectors and of all parent arrays before/after every operation, and no shared memory between result and arguments)",
+    "source link (C14_model_is_source_*): trusted are the translator harness/py2gal.py (incl. its additions `overload`, raising "
+    "comprehension element = res_map_all, `inherits`) and the primitives of the C14_* configurations in harness/src_functions.py, one "
+    "attribute / numpy call each: np.issubdtype(a.dtype, bool) = the array's is-bool flag; a.shape[0] / a.size = number of rows; "
+    "a[mask] = Views.select (Views.select2 for the two 2-d arrays: keeps the column count); a.copy() = the same value, typed as an "
+    "array the function owns; np.where(a)[0] = Views.np_where; `a[idx] = vals` (declared only for an owned array) = Views.scatter; "
+    "`|` = Views.bor_vec; `~` = map negb; `ids == x` = map (=? x); np.any = existsb id; np.unique = sort_uniq Z.compare; len; l[0]; "
+    "`a is not b` on Screen objects = comparison of identity tags; Screen attribute reads (plate_ids, sample_ids, treatment_ids, "
+    "sample_names, plate_names, treatment_names, treatment_doses, observations, observation_mask (taken to be a bool array), "
+    "control_treatment_name, the three mappings) = the model screen's fields; Screen(<seven keywords>) = Views.screen_of_arrays = "
+    "mk_screen on the rows zipped from those arrays, arity = treatment_names.shape[1], no mappings, observations and mask given; "
+    "calls of translated methods (self.size, self.subset, self.get_plate, self.unique_plate_ids, self.treatment_ids, ScreenSubset(...), "
+    "Plate(...)) run their translations; the value of the parent's computed single_treatment_effects property is a parameter (read "
+    "twice by the code, taken to be the same both times)",
 ]
 EXPLANATION = ("Model: Model/Views.v on top of the shared Model/Screen.v. Compared exactly per case: parent identity, selection_vector, "
                "plate/sample/treatment ids, and every selected row (sample name, plate name, treatment names, dose keys, observation bits, "
                "mask), the model's reference index list vs np.where(selection_vector), error-ness; to_screen compared as a whole screen "
-               "(rows, ids, mappings). Not modelled: single_treatment_effects, Plate.merge / plate_id / plate_name.")
+               "(rows, ids, mappings). Not modelled: Plate.merge / plate_id / plate_name; the parent's single_treatment_effects is an opaque "
+               "value. Source link: the whole methods ScreenSubset.__init__ / subset / combine / concat / invert / to_screen / its thirteen "
+               "attribute properties, ScreenBase.size / unique_plate_ids, Screen.subset / subset_observed / subset_unobserved / get_plate / "
+               "plates are re-translated from VERIF_REPO's src/batchie/data.py into coq/theories/Generated/SrcViews.v on every run and the "
+               "C14_model_is_source_* theorems prove the translations equal to the model's functions for all inputs (objects: Screen = "
+               "(identity tag, contents), ScreenSubset / Plate = (parent, selection vector), selection argument = (dtype is bool, values)). "
+               "A changed method either leaves the translated fragment (the build fails) or changes the generated definition and the "
+               "linking proof no longer compiles; both are reported as a broken obligation. What the link trusts is listed under "
+               "assumptions: the translator and the one-call primitives. The class of a result (ScreenSubset vs Plate) is not modelled; "
+               "Plate is checked to be a plain subclass of ScreenSubset without its own __init__.")
 
 
 class NoneReturned(Exception):
